@@ -353,6 +353,13 @@ pub fn report_violation(ev: &mut Evidence, case: &Value, message: &str) -> PathB
     let p = write_replay(&ev.property_id, case, message);
     ev.frozen = false;
     ev.violations += 1;
+    // the violating case is always part of the evidence (a run that fails early has few samples)
+    if ev.samples.len() < ev.max_samples + 1 {
+        ev.samples.push(json!({"violating_case": case, "message": truncate(message, 600)}));
+    }
+    if ev.evaluations == 0 {
+        ev.evaluations = 1;
+    }
     println!("VIOLATION property={} replay={}", ev.property_id, p.display());
     eprintln!("  detail: {}", truncate(message, 2000));
     p
